@@ -507,8 +507,79 @@ def split_trace(trace, parts, d):
     return files
 
 
+def channel_model(tier, fixes):
+    """TLC on spec/Channel.tla (the command channel at the grain of single ring operations): safety for every
+    interleaving, and liveness under fairness (what enters a ring is processed without a further call,
+    flush() returns also when it overlaps a cycle, a dead thread's receiver is dropped).  The pinned variants
+    must fail.  The model does not depend on /repo; it is bound to the code by TraceChan.tla (validate)."""
+    import hashlib
+    d = os.path.join(OUT, "chan")
+    os.makedirs(d, exist_ok=True)
+    files = sorted(f for f in os.listdir(SPEC) if f.startswith("MC_Channel") or f == "Channel.tla")
+    h = hashlib.sha1()
+    for f in files:
+        h.update(open(os.path.join(SPEC, f), "rb").read())
+    h.update(("%s %s" % (tier, fixes)).encode())
+    cache = os.path.join(d, "result-%s.json" % h.hexdigest()[:16])
+    if os.path.exists(cache):
+        return json.load(open(cache))
+    for f in files:
+        shutil.copy(os.path.join(SPEC, f), d)
+    sw = {"FixRecv": ["NoDestroy", "ByFlush", "RemovedOnlyDead"], "FixFifo": ["Fifo"], "FixExitOrder": ["ExitPrefix"]}
+    live_needs = {"Delivered": "FixRecv", "Settled": "FixRecv"}
+
+    def run(cfgname, edit=None, workers=6, timeout=1500):
+        cfg = open(os.path.join(d, cfgname)).read()
+        if edit:
+            cfg = edit(cfg)
+        name = "run-" + cfgname
+        open(os.path.join(d, name), "w").write(cfg)
+        t0 = time.time()
+        r = subprocess.run(["timeout", str(timeout), "tlc", "-workers", str(workers), "-metadir", os.path.join(d, "st-" + cfgname), "-cleanup",
+                            "-noGenerateSpecTE", "-config", name, "MC_Channel.tla"], cwd=d, stdout=subprocess.PIPE, stderr=subprocess.STDOUT, text=True)
+        txt = r.stdout
+        m = re.search(r"(\d+) states generated, (\d+) distinct states found, 0 states left", txt)
+        bad = re.findall(r"Invariant (\w+) is violated|Temporal property (\w+) was violated", txt)
+        return dict(cfg=cfgname, generated=int(m.group(1)) if m else 0, distinct=int(m.group(2)) if m else 0,
+                    violated=[x[0] or x[1] for x in bad], ok="No error has been found" in txt, wall_s=round(time.time() - t0, 1), tail=txt[-1500:])
+
+    def main_edit(cfg):
+        for k, invs in sw.items():
+            if k not in fixes:
+                cfg = cfg.replace("%s = TRUE" % k, "%s = FALSE" % k)
+                for i in invs:
+                    cfg = re.sub(r"\b%s\b ?" % i, "", cfg)
+        for pr, k in live_needs.items():
+            if k not in fixes:
+                cfg = re.sub(r"\b%s\b ?" % pr, "", cfg)
+        return cfg
+
+    main = run("MC_Channel.cfg" if tier == "quick" else "MC_Channel_thorough.cfg", main_edit)
+    if not main["ok"]:
+        raise ToolError("Channel.tla: TLC did not pass the channel model: %s\n%s" % (main["violated"], main["tail"]))
+    variants = []
+    for v, expect in (("pinned_recv", "NoDestroy"), ("pinned_fifo", "Fifo"), ("pinned_exit", "ExitPrefix")) + ((("pinned_recv_live", "Delivered"),) if tier != "quick" else ()):
+        r = run("MC_Channel_%s.cfg" % v, workers=3, timeout=600)
+        variants.append(dict(variant=v, expected=expect, violated=r["violated"]))
+        if expect not in r["violated"]:
+            raise ToolError("Channel.tla: the pinned variant %s does not violate %s (vacuous invariant?)" % (v, expect))
+    cfgtxt = open(os.path.join(d, "run-" + main["cfg"])).read()
+    res = dict(module="spec/Channel.tla", config=main["cfg"], states=main["distinct"], transitions=main["generated"], wall_s=main["wall_s"],
+               invariants=re.findall(r"^INVARIANTS (.*)$", cfgtxt, re.M)[0].split(), liveness_under_fairness=re.findall(r"^PROPERTIES (.*)$", cfgtxt, re.M)[0].split(),
+               pinned_variants=variants)
+    json.dump(res, open(cache, "w"))
+    return res
+
+
+# channel conformance (TraceChan.tla) of the runs validated so far in this process: runs whose hook events
+# were folded through the channel model, events folded, and every failed enabling condition
+CHAN = dict(runs=0, events=0, drift=[])
+
+
 def validate(trace, tag, parts=8):
-    """Runs TraceAbs.tla over the trace. Returns (violations, runs consumed)."""
+    """Runs TraceAbs.tla (and, on the hook events of the same runs, TraceChan.tla) over the trace.
+    Returns (violations, runs consumed).  A channel drift that is a property's own clause is returned as
+    a violation of that property; the others are only recorded in CHAN (model drift is not a verdict)."""
     d = os.path.join(OUT, "validate", tag)
     shutil.rmtree(d, ignore_errors=True)
     os.makedirs(d)
@@ -539,6 +610,19 @@ def validate(trace, tag, parts=8):
             mm = re.match(r'^<<"VIOL", "(.*)">>$', line)
             if mm:
                 viols.append(json.loads(unescape(mm.group(1))))
+                continue
+            mm = re.match(r'^<<"DRIFT", "(.*)">>$', line)
+            if mm:
+                dv = json.loads(unescape(mm.group(1)))
+                if len(CHAN["drift"]) < 200:
+                    CHAN["drift"].append(dict(dv, tag=tag))
+                if dv.get("p"):
+                    viols.append(dict(dv, w="channel: " + dv["w"]))
+                continue
+            mm = re.match(r'^<<"CHAN", (\d+), (\d+)>>$', line)
+            if mm:
+                CHAN["runs"] += 1
+                CHAN["events"] += int(mm.group(2))
     for v in viols:
         v["ovl"] = v["run"] in ovl
     return viols, consumed
